@@ -41,6 +41,8 @@ OPTION_SITES = [
     ("outdir", ["default", "dotdot", "symlink", "nested"]),
     # non-Fortran files documented via extra_filetypes (they count as source files for the file list)
     ("extra_files", [False, True]),
+    # the directory FORD is started from: the project directory, a directory directly below `/`, the project's parent
+    ("cwd", ["project", "/tmp", "parent"]),
 ]
 
 
@@ -85,7 +87,11 @@ def build_and_check(st: Stats, shape, opts, pages, stratum, feats, move=False):
         (root / "real").mkdir()
         os.symlink(root / "real", root / "lnk")
         o["output_dir"] = "lnk/doc"
-    r = fordrun.build(files, o, stage="write", proj_body="Project front page text.\n", root=root)
+    start = o.pop("cwd", "project")
+    if start != "project" and root is None:
+        root = fordrun.new_root()
+    cwd = {"project": None, "/tmp": "/tmp", "parent": str(root.parent) if root else None}[start]
+    r = fordrun.build(files, o, stage="write", proj_body="Project front page text.\n", root=root, cwd=cwd)
     st.evaluations += 1
     inp = dict(shape=shape, options={k: v for k, v in opts.items()}, pages=pages)
     try:
